@@ -834,8 +834,8 @@ def get_item(self, base, idx):
         key = z3.simplify(z3.If(it < 0, it + base.n, it))
         kid = key.get_id()
         if kid not in base.cache:
-            base.cache[kid] = self.make_symbolic(base.decl, "elem")
-        return base.cache[kid]
+            base.cache[kid] = (self.make_symbolic(base.decl, "elem"), key)
+        return base.cache[kid][0]
     if isinstance(base, PObj) and "__data__" in base.fields and not self.class_attr_raw(base.cls, "__getitem__")[0]:
         base = base.fields["__data__"]
     if isinstance(base, PDict):
